@@ -1,9 +1,8 @@
 package main
 
-// One fixed history for the engine stream: a list literal of 66 000 members is refused by the
-// bytecode compiler (operand of NEW_LIST does not fit 16 bits: `overflow`, reported by Compile as
-// an error) and accepted by the closure compiler on the same engine; a literal of 65 535 members is
-// accepted by both.
+// One fixed history for the engine stream: a call with 256 arguments is refused by the bytecode
+// compiler (the argument count does not fit 8 bits: `overflow`, reported by Compile as an error;
+// a later invocation finds no Callable) and accepted by the closure compiler on the same engine.
 
 import (
 	"fmt"
@@ -16,30 +15,30 @@ import (
 )
 
 func engineRefusalCase() Case {
-	human := "engine Compile([1 … 66000][0]) on vm; UseCompiler(closure); Compile(the same); invoke #2; UseCompiler(vm); Compile([1 … 65535][0]); invoke #5"
+	human := "engine RegisterFun(wide: 256 parameters); Compile(wide(1, …, 1)) on vm; invoke #1; UseCompiler(closure); Compile(the same); invoke #4"
 	c := Case{Human: human, Tags: []string{"gen:engine-history", "engine:vm-refusal-history"}, Nontriv: true}
 	if guardBegin(human) {
 		return crashCase(human)
 	}
 	defer guardEnd()
-	long := func(n int) string {
-		var b strings.Builder
-		b.WriteString("[")
-		for i := 1; i <= n; i++ {
-			if i > 1 {
-				b.WriteString(", ")
-			}
-			fmt.Fprint(&b, i%10)
-		}
-		b.WriteString("][0]")
-		return b.String()
+	ps := make([]*T, 256)
+	args := make([]string, 256)
+	for i := range ps {
+		ps[i] = tNum
+		args[i] = "1"
 	}
-	big, fit := long(66000), long(65535)
+	wide := hostDecl{Name: "wide", Params: ps, Ret: tNum, Beh: "(ret 0)"}
+	src := "wide(" + strings.Join(args, ", ") + ")"
 	e := yae.NewExpr()
 	env0 := types.NewEnv()
 	var want, reqOps []string
 	var callables []yae.Callable
-	compile := func(src string) {
+	step := func(req, w string, cl yae.Callable) {
+		reqOps = append(reqOps, req)
+		want = append(want, w)
+		callables = append(callables, cl)
+	}
+	compile := func() {
 		var cl yae.Callable
 		var err error
 		func() {
@@ -50,54 +49,52 @@ func engineRefusalCase() Case {
 			}()
 			cl, err = e.Compile(src, env0)
 		}()
-		callables = append(callables, cl)
-		reqOps = append(reqOps, sxList("compile", sxList(), sxStr(src)))
 		switch {
 		case err == nil:
-			want = append(want, "(compiled ok)")
+			step(sxList("compile", sxList(), sxStr(src)), "(compiled ok)", cl)
 		case err.Error() == "overflow":
-			want = append(want, "(compiled err overflow)")
+			step(sxList("compile", sxList(), sxStr(src)), "(compiled err overflow)", nil)
 		default:
-			want = append(want, sxList("compiled", "err", sxStr(err.Error())))
+			step(sxList("compile", sxList(), sxStr(src)), sxList("compiled", "err", sxStr(err.Error())), nil)
 		}
 	}
 	invoke := func(k int) {
-		callables = append(callables, nil)
-		reqOps = append(reqOps, sxList("invoke", sxInt(k), sxList()))
+		req := sxList("invoke", sxInt(k), sxList())
 		if callables[k] == nil {
-			want = append(want, "nocallable")
+			step(req, "nocallable", nil)
 			return
 		}
 		var res *val.Val
 		var err error
-		func() {
+		trace = nil
+		out := captureStdout(func() {
 			defer func() {
 				if p := recover(); p != nil {
 					err = fmt.Errorf("PANIC %v", p)
 				}
 			}()
 			res, err = callables[k](val.NewEnv())
-		}()
+		})
+		var events []string
+		for _, ln := range strings.Split(strings.TrimSuffix(out, "\n"), "\n") {
+			if strings.HasPrefix(ln, callMarker) {
+				events = append(events, strings.TrimPrefix(ln, callMarker))
+			}
+		}
 		if err != nil {
-			want = append(want, sxList("result", "fail", classifyPanic(err.Error()), sxList()))
+			step(req, sxList("result", "fail", classifyPanic(err.Error()), sxList(events...)), nil)
 		} else {
-			want = append(want, sxList("result", "ok", safely(func() string { return encVal(res) }), sxList()))
+			step(req, sxList("result", "ok", safely(func() string { return encVal(res) }), sxList(events...)), nil)
 		}
 	}
-	compile(big) // 0
-	invoke(0)    // 1: no Callable
+	e.RegisterFun(wide.build())
+	step(sxList("regfun", wide.sx()), "done", nil) // 0
+	compile()                                       // 1: vm refuses
+	invoke(1)                                       // 2: no Callable
 	e.UseCompiler(closure.Compile)
-	callables = append(callables, nil)
-	reqOps = append(reqOps, "(compiler closure)")
-	want = append(want, "done") // 2
-	compile(big)                // 3
-	invoke(3)                   // 4
-	e.UseBytecodeCompiler()
-	callables = append(callables, nil)
-	reqOps = append(reqOps, "(compiler vm)")
-	want = append(want, "done") // 5
-	compile(fit)                // 6
-	invoke(6)                   // 7
+	step("(compiler closure)", "done", nil) // 3
+	compile()                               // 4
+	invoke(4)                               // 5
 	c.Req = sxList("engine", sxList(), sxList(sxList(), sxList()), sxList(reqOps...))
 	c.Want = sxList(append([]string{"outs"}, want...)...)
 	return c
